@@ -557,3 +557,114 @@ def S7(inp):
     cl['new_dump_in_place_on_success'] = failed or (isinstance(dump, Blob) and dump.sole_origin() is not None and dump.sole_origin()[0][0] == 'token')
     cl['serializer_idle_again'] = get(o, 'serializer')._Serializer__pid == 0
     return Res(cl, nontrivial=failed, obs=lambda: dict(stage=stage, log=[e[1] for e in log], dump=repr(dump)[:80], exc=show(exc)))
+
+
+# ---------------------------------------------------------------------------------------
+def _pgc_params(grid):
+    out = []
+    for bl, ll, bf, lf in grid:
+        out.append(dict(bl=bl, ll=ll, bf=bf, lf=lf))
+    return out
+
+
+_PGC_QUICK = [(3, 4, 1, 5), (2, 3, 1, 4), (2, 4, 1, 1), (2, 4, 1, 3), (2, 4, 1, 5), (3, 5, 1, 4), (2, 5, 3, 5), (3, 5, 2, 6), (2, 4, 4, 6), (3, 6, 1, 6)]
+_PGC_THOROUGH = [(bl, ll, bf, lf) for bl in (2, 3, 4) for ll in (bl + 1, bl + 2, bl + 3) for bf in (1, 2, 3, 4, 5) for lf in range(bf + (1 if bf > 1 else 0), 8) if ll <= 7]
+
+
+@obligation('PGC', props=('C05', 'C04', 'C09'), quick=_pgc_params(_PGC_QUICK), thorough=_pgc_params(_PGC_THOROUGH), stubs=_STUBS + ('the snapshot image is an opaque blob of 3 bytes sent in one chunk; decoding it on the follower yields the leader\'s two snapshot entries (state part empty)',),
+            bounds='indices 1..7; leader log bl..ll with bl in 2..4 (compacted: snapshot of position bl+1 available), follower log bf..lf with bf in 1..5 (compacted or not), terms symbolic (0..3) and related by Log Matching with any agreement length, any nextIndex in 2..ll+1 (also inside the compacted part), sound matchIndex, any commit indices consistent with that')
+def PGC(inp, bl, ll, bf, lf):
+    """catch-up with compacted logs: one round (real __sendAppendEntries incl. the snapshot branch -> follower handles every message
+    in order -> leader handles every reply in order).  Ranking: (Z) nextIndex inside the leader's compacted part: the follower ends
+    up holding the snapshot's last entry and nextIndex leaves that part in this one round; once the follower holds that entry
+    nextIndex never falls back into it.  (A) the entry before nextIndex was compacted away on the follower: nextIndex jumps into
+    the follower's log and never falls below its first index again.  (B) otherwise the round leaves the follower caught up or
+    strictly decreases nextIndex.  B* Z A? B* is finite: a connected follower is caught up within a bounded number of rounds
+    (C05).  matchIndex stays sound, the follower's committed prefix and indices never shrink (C04)."""
+    install_memory()
+    from pvf.obligations.relational import _pair, T_HI
+    lead, ltr, fol, ftr, now = _pair(inp, 100)
+    M = 7
+    a, b = Node('a'), Node('b')
+    t = inp.int('t', 1, T_HI)
+    lt = [None] + [inp.int('lt%d' % i, 0, T_HI) for i in range(1, M + 1)]
+    ft = [None] + [inp.int('ft%d' % i, 0, T_HI) for i in range(1, M + 1)]
+    for i in range(2, M + 1):
+        inp.assume(And(lt[i] >= lt[i - 1], ft[i] >= ft[i - 1]))
+    inp.assume(lt[M] <= t)
+    g = inp.int('agree', 1, M)
+    for i in range(1, M + 1):
+        inp.assume(Iff(Eq(lt[i], ft[i]), i <= g))
+    ftm = inp.int('fterm', 0, T_HI)
+    inp.assume(And(ftm <= t, ft[lf] <= ftm))
+    so.set_log(lead, [(so.NOOP, i, lt[i]) for i in range(bl, ll + 1)])
+    so.set_log(fol, [(so.NOOP, i, ft[i]) for i in range(bf, lf + 1)])
+    # commit indices: what a node compacted away was applied there; what the follower committed, the leader holds identically
+    lc = inp.int('lcommit', bl + 1, ll)
+    fc_lo = bf + 1 if bf > 1 else 1
+    fc = inp.int('fcommit', fc_lo, lf)
+    inp.assume(And(fc <= g, fc <= ll))
+    put(lead, 'raftCurrentTerm', t); put(lead, 'raftState', L); put(lead, 'raftLeader', a)
+    put(lead, 'raftCommitIndex', lc); put(lead, 'raftLastApplied', lc)
+    put(fol, 'raftCurrentTerm', ftm); put(fol, 'raftElectionDeadline', now + 100)
+    put(fol, 'raftCommitIndex', fc); put(fol, 'raftLastApplied', fc)
+    get(lead, 'connectedNodes').add(b)
+    nxt = inp.int('next', 2, ll + 1)
+    mt = inp.int('match', 0, ll)
+    inp.assume(And(mt <= g, mt <= lf, mt < nxt))
+    get(lead, 'raftNextIndex')[b] = nxt
+    get(lead, 'raftMatchIndex')[b] = mt
+    get(lead, 'lastResponseTime')[b] = now
+    # the leader's stored snapshot (position bl+1), one chunk; what the follower decodes from a complete transfer
+    lser, fser = get(lead, 'serializer'), get(fol, 'serializer')
+    img = Blob.fresh(('image', 1), 3)
+    lser._Serializer__inMemorySerializedData = img
+    decoded = []
+
+    def decode():
+        got = Blob.coerce(fser._Serializer__inMemorySerializedData)
+        decoded.append(bool(got.whole(('image', 1), 3)))
+        return (None, (so.NOOP, bl + 1, lt[bl + 1]), (so.NOOP, bl, lt[bl]), set([a, b]))
+    fser.deserialize = decode
+    _, exc = guard(getattr(lead, so.P + 'sendAppendEntries'))
+    msgs = [m for nd, m in ltr.sent if nd == b]
+    if exc is None:
+        for m in msgs:
+            _, exc = guard(getattr(fol, so.P + 'onMessageReceived'), a, m)
+            if exc is not None:
+                break
+    replies = [m for nd, m in ftr.sent if nd == a]
+    if exc is None:
+        for m in replies:
+            _, exc = guard(getattr(lead, so.P + 'onMessageReceived'), b, m)
+            if exc is not None:
+                break
+    nxt1, mt1 = get(lead, 'raftNextIndex')[b], get(lead, 'raftMatchIndex')[b]
+    flog, llog = so.log_of(fol), so.log_of(lead)
+    fc1, fa1 = get(fol, 'raftCommitIndex'), get(fol, 'raftLastApplied')
+    fbase1 = flog[0][1]
+
+    def held(e):       # the follower holds the leader's entry e (below its first index: compacted, i.e. committed, hence equal)
+        return Or(so.has_entry(flog, e[1], e[2]), e[1] < fbase1)
+    caught = And(Eq(mt1, ll), And([held(e) for e in llog]))
+    snap_entry = (so.NOOP, bl + 1, lt[bl + 1])
+    in_zone = nxt <= bl
+    cl = {'no_exception': exc is None}
+    cl['image_decoded_only_when_complete'] = all(decoded)
+    # ranking argument.  Z: nextIndex inside the leader's compacted part; A: the entry before nextIndex lies below the follower's
+    # first index (the follower compacted it away); B: otherwise.
+    below_f = nxt - 1 < bf
+    holds_snap_entry = (bf > bl + 1) or And(g >= bl + 1, lf >= bl + 1)
+    cl['Z_compacted_part_left_in_one_round'] = Implies(in_zone, And(nxt1 > bl, held(snap_entry)))
+    cl['A_jumps_into_the_follower_log'] = Implies(And(Not(in_zone), below_f), Or(caught, nxt1 - 1 >= bf))
+    cl['B_caught_up_or_next_decreased'] = Implies(And(Not(in_zone), Not(below_f)), And(Or(caught, nxt1 < nxt), nxt1 - 1 >= bf))
+    cl['never_back_into_compacted_part'] = Implies(And(Not(in_zone), holds_snap_entry), nxt1 > bl)
+    cl['match_index_sound'] = And(mt1 <= ll, And([Implies(e[1] <= mt1, held(e)) for e in llog]))
+    cl['follower_indices_do_not_move_backwards'] = And(fc1 >= fc, fa1 >= fc)
+    cl['follower_keeps_committed_prefix'] = And([Implies(i <= fc, Or(so.has_entry(flog, i, ft[i]), i < fbase1)) for i in range(bf, lf + 1)])
+    cl['follower_commit_within_log'] = And(fc1 <= flog[-1][1], fa1 <= fc1)
+    cl['leader_log_untouched'] = len(llog) == ll - bl + 1
+    return Res(cl, nontrivial=True, obs=lambda: dict(msgs=[('snapshot' if m.get('serialized') is not None else (show(m.get('prevLogIdx')), len(m.get('entries', [])))) for m in msgs],
+                                                     replies=[(show(m['next_node_idx']), m['success'], m['reset']) for m in replies],
+                                                     next=(show(nxt), show(nxt1)), match=(show(mt), show(mt1)), flog=show(flog), fcommit=(show(fc), show(fc1)), exc=show(exc)),
+               vars=dict(nmsgs=len(msgs)))
